@@ -63,7 +63,8 @@ def cases(ctx):
             c = gen.cube_case(rng, ndims=int(rng.integers(1, 3)), n=gen.pick(rng, [5, 60, 300]), max_axes=1,
                               big_extent=True)
         else:
-            c = gen.cube_case(rng, n=2000 if rng.random() < 0.01 else None)
+            c = gen.cube_case(rng, n=(2000 if rng.random() < 0.3 else gen.pick(rng, [255, 256, 257, 65535, 65536, 65537]))
+                              if rng.random() < 0.03 else None)
         c["rma"] = gen.pick(rng, [NaN, NaN, (0, False), (-1, False), (7, False)])
         c["edit_seed"] = int(rng.integers(0, 2 ** 31)) if rng.random() < 0.35 else None
         yield c
